@@ -92,7 +92,7 @@ m = {
     "engines": ENGINES,
     "checks": [],
     "not_applicable": [],
-    "notes": "Technique family: runtime monitoring and sanitizers. See DESIGN.md. Repairs of genuine defects: /repo commits 51263be 0ede6c0 3c6a6ad 442a416 eb0b0f0 324dfe9 d28fa47 45f70e5 6c59ca2 5a7f607 e37e53d d3d9e4f 9559da3 e8ae73d 231cbe7 c4c85ad d7a5098 403e617 (known_findings.json, 'fixed'); recorded findings F6 F7 F9 F10 (known_findings.json, 'findings').",
+    "notes": "Technique family: runtime monitoring and sanitizers. See DESIGN.md. Repairs of genuine defects: /repo commits 51263be 0ede6c0 3c6a6ad 442a416 eb0b0f0 324dfe9 d28fa47 45f70e5 6c59ca2 5a7f607 e37e53d d3d9e4f 9559da3 e8ae73d 231cbe7 c4c85ad d7a5098 403e617 9877141 (known_findings.json, 'fixed'); recorded findings F6 F7 F9 F10 (known_findings.json, 'findings').",
 }
 for p in props:
     pid = p["id"]
